@@ -57,11 +57,11 @@ func c09Gen(r *driver.Rand, thorough bool) *driver.Plan {
 			}
 		}
 	}
-	if (stage == "fork.Filter" || stage == "fork.Partition") && r.Chance(1, 3) {
+	if (stage == "fork.Filter" || stage == "fork.Partition") && r.Chance(1, 2) {
 		// predicates that fail on some elements (and may answer true while failing)
 		p.SetX("pred_fail", 1)
 		for i := 0; i < n; i++ {
-			if r.Chance(1, 3) {
+			if r.Chance(1, 2) {
 				p.FailAt = append(p.FailAt, i)
 			}
 		}
